@@ -100,9 +100,39 @@ def setup_worker(ctx):
 # --------------------------------------------------------------- helper unit
 
 
-def _py_filter(ctx, k):
+def typed_k(k, how):
+    """The same threshold as the number types users hand over (grids of ints, numpy scalars from
+    arange/linspace, float32 from a config file); falls back to float when the value would change."""
+    if how == "int" and float(k) == int(k):
+        return int(k)
+    if how == "np32" and float(np.float32(k)) == float(k):
+        return np.float32(k)
+    if how == "np64":
+        return np.float64(k)
+    if how == "npint" and float(k) == int(k):
+        return np.int64(int(k))
+    return float(k)
+
+
+K_TYPES = ["float", "int", "np32", "np64", "npint"]
+
+
+def _py_filter(ctx, k, plain=False):
     """A tiny Python filter per threshold; remove_innovation only reads config."""
+    if k is not None and not plain:
+        k = typed_k(k, K_TYPES[ctx.get("_unit_i", 0) % len(K_TYPES)])
+    ctx.setdefault("k_types_seen", set()).add(type(k).__name__)
+    k = (type(k).__name__, k)
     if k not in ctx["py_filters"]:
+        k_, k = k, k[1]
+        from formak import python, ui
+
+        dt, x = ui.Symbol("dt"), ui.Symbol("x")
+        m = ui.Model(dt=dt, state={x}, control=set(), state_model={x: x})
+        ctx["py_filters"][k_] = python.compile_ekf(m, {}, {"s": {x: x}}, {"s": {x: 1.0}},
+                                                   config={"innovation_filtering": k})
+        return ctx["py_filters"][k_]
+    if False:
         from formak import python, ui
 
         dt, x = ui.Symbol("dt"), ui.Symbol("x")
@@ -193,7 +223,16 @@ def _helper(R, rng, ctx):
         cpp_dec = tok == "1"
         R.stats.inc("cpp_helper_decisions")
         try:
-            py_dec = bool(_py_filter(ctx, k).remove_innovation(y.copy(), Si.copy()))
+            flt = _py_filter(ctx, k)
+            if isinstance(flt.config.innovation_filtering, np.float32):
+                # a float32 threshold makes numpy evaluate k*sqrt(2m)+m in single precision; Config
+                # declares the field as float, so single-precision thresholds are only exercised
+                # away from the boundary (DESIGN 11)
+                nis_f = float((y.T @ Si @ y).item())
+                if abs(nis_f - O.threshold_fl(k, m)) <= 1e-5 * O.threshold_fl(k, m):
+                    flt = _py_filter(ctx, k, plain=True)
+                    R.stats.inc("float32_threshold_near_boundary_run_as_float")
+            py_dec = bool(flt.remove_innovation(y.copy(), Si.copy()))
         except Exception as e:  # noqa: BLE001
             R.add([K.V(K.exc_key("remove_innovation", e), f"remove_innovation raised (m={m}): {K.exc_text(e)}",
                        m=m, k=k, y=y.tolist(), S_inv=Si.tolist())])
@@ -264,11 +303,14 @@ def direct_observation_defn(m):
     }
 
 
-def _run_pair(R, defn, b, k, cases, label, *, disabled=False, exact=False):
+def _run_pair(R, defn, b, k, cases, label, *, disabled=False, exact=False, ktype="float"):
     """cases: list of (tag, x dict, P matrix, z dict, expect) with expect in
     {True (discard), False (keep), None (undecided)}.  Drives the Python filter
     and the generated C++ filter and checks decision + discard semantics."""
-    cfg_k = None if disabled else k
+    cfg_k = None if disabled else typed_k(k, ktype)
+    if not disabled:
+        R.stats.inc(f"filter_threshold_type_{type(cfg_k).__name__}")
+        label = f"{label}[{type(cfg_k).__name__}]"
     ekf = b.py_ekf(innovation_filtering=cfg_k, common_subexpression_elimination=False)
     eb = cppdrv.EkfBinary(defn, b, {"innovation_filtering": cfg_k, "common_subexpression_elimination": False})
     try:
@@ -378,7 +420,8 @@ def _exactfilter(R, rng, ctx, i):
             break
     cases.append(("far-above", "gps", x0, P, zvec([1e3]), True))
     cases.append(("well-below", "gps", x0, P, zvec([0.5]), False))
-    _run_pair(R, defn, b, k, cases, f"exactfilter(m={m},k={k})", exact=True)
+    _run_pair(R, defn, b, k, cases, f"exactfilter(m={m},k={k})", exact=True,
+              ktype=K_TYPES[(i // len(EXACT_FILTERS) + i) % len(K_TYPES)])
     # the same far-above reading with filtering disabled must move the state
     _run_pair(R, defn, b, k, [("far-above-disabled", "gps", x0, P, zvec([1e3]), None)],
               f"exactfilter-disabled(m={m})", disabled=True)
@@ -388,7 +431,7 @@ def _randfilter(R, rng, ctx, i):
     defn = gen.program(rng, n_state=(1, 4), n_control=(0, 0), n_calib=(0, 2), n_sensor=(1, 2),
                        n_reading=(1, 3), depth=2, allow_text=False)
     b = build.Built(defn)
-    k = rng.choice([1.0, 2.0, 5.0, 2.718281828459045, 3.0000004, 1.0000001, 0.3333333333333333])
+    k = rng.choice([1.0, 2.0, 5.0, 2.718281828459045, 3.0000004, 1.0000001, 0.3333333333333333, 3.0, 2.5, 0.75])
     disabled = (i % 3 == 2)
     ectx = monitors.EkfCtx(defn)
     names = sorted(defn["state"])
@@ -431,7 +474,7 @@ def _randfilter(R, rng, ctx, i):
             zd = {r: float(z[j, 0]) for j, r in enumerate(rds)}
             cases.append((f"x{factor}", sn, x, P.tolist(), zd, expect))
     if cases:
-        _run_pair(R, defn, b, k, cases, f"randfilter(k={k})", disabled=disabled)
+        _run_pair(R, defn, b, k, cases, f"randfilter(k={k})", disabled=disabled, ktype=rng.choice(K_TYPES))
 
 
 def run_unit(unit, ctx):
